@@ -79,13 +79,26 @@ def gen_cases(rng, n, quick):
     cases = []
     for i in range(n):
         S = rng.choice([1, 1, 2])
-        kind = rng.choice(["untimed", "untimed", "timed", "future"])
+        kind = rng.choice(["untimed", "untimed", "timed", "future", "two_signal"])
         ops = list(UNTIMED)
         if kind == "timed":
             ops += TIMED_P
         if kind == "future":
             ops = ["not", "and", "or", "implies", "evT", "alwT", "once", "hist"]
         g = Gen(rng, vars_=rng.choice([("x",), ("x", "y")]), S=S, ops=ops, ivs=IVS, bool_atoms=True)
+        if kind == "two_signal":
+            # every binary arithmetic / comparison node between two *signals*, fed by lagging per-variable batches
+            g = Gen(rng, vars_=("x", "y"), S=S, ops=["not", "and", "or", "once", "hist", "onceT"], ivs=IVS, bool_atoms=False)
+            def atom(g=g):
+                a_, b_ = rng.choice([("x", "y"), ("y", "x")])
+                r_ = rng.random()
+                if r_ < 0.3:
+                    return pred(rng.choice(g.cmps), var(a_), var(b_))
+                t_ = bi(rng.choice(["add", "sub", "sub"] + (["mul"] if S == 1 else [])), var(a_), var(b_))
+                if r_ < 0.45:
+                    t_ = un(rng.choice(["abs", "neg"]), t_)
+                return pred(rng.choice(g.cmps), t_, const(rng.choice([0, 1, 2]) * S))
+            g.atom = atom
         for _ in range(30):
             phi = g.formula(rng.choice([1, 1, 2, 2, 3]))
             if not vars_of(phi):
@@ -116,7 +129,7 @@ def gen_cases(rng, n, quick):
             evs.append(ev_parse(k + 1))
             if kind == "future":
                 evs.append(ev_pastify(k + 1))
-            if k >= 2 and len(vs) > 1 and rng.random() < 0.5:
+            if k >= 2 and len(vs) > 1 and rng.random() < (0.9 if kind == "two_signal" else 0.5):
                 evs += staggered_events(rng, w, sc, k + 1)
             else:
                 evs += schedule_events(w, sc, k + 1)
@@ -134,7 +147,7 @@ def main():
     traces = runner.run_cases(cases)
     vs_, gen, dist = core.validate("C05", traces, module="TraceCt")
     rep.add_traces(traces, vs_, gen, dist, nontrivial_key=lambda c: c["objs"][0]["text"] + str([e["w"] for e in c["events"] if e["o"] == 1 and e["a"] == "update"]))
-    rep.extra["cases_by_kind"] = {k: sum(1 for c in cases if c["kind"] == k) for k in ("untimed", "timed", "future")}
+    rep.extra["cases_by_kind"] = {k: sum(1 for c in cases if c["kind"] == k) for k in ("untimed", "timed", "future", "two_signal")}
     rep.extra["schedules_per_case"] = 4 if quick else 6
     return rep.finish("traces: for each (formula, signal set) the same signals are fed to fresh monitors under several schedules - everything "
                       "at once, one sample per update(), and random independent per-variable splits (variables fed in staggered, possibly "
